@@ -270,3 +270,163 @@ class SymSet(_SymDictBase):
         seq = SymSeq(n, lambda k_: Opaque(item(k_), "key") if ks.kind() == z3.Z3_UNINTERPRETED_SORT else item(k_), "sorted")
         seq.sorted_of = (self.snapshot(), item, pos)
         return seq
+
+
+_I, _B, _R = z3.IntSort(), z3.BoolSort(), z3.RealSort()
+_A1 = z3.ArraySort(_I, _B)
+_A2 = z3.ArraySort(_I, _A1)
+_A3 = z3.ArraySort(_I, _A2)
+_H2 = z3.ArraySort(_I, _A1)
+# length, head and first component of the head of the list stored under (a, b) in the concrete state number `version`: a concrete state has
+# ONE list per key, so these are functions of the state; every mutation of the dictionary makes a new, unrelated version
+ld_len = z3.Function("listdict_len", _I, _I, _I, _I)
+ld_head = z3.Function("listdict_head", _I, _I, _I, _I)
+ld_first = z3.Function("listdict_head_first", _I, _I, _I, _R)
+
+
+class SymListDict(_SymDictBase):
+    """dict filled in a loop of symbolic length, keys: pairs of integers, values: lists of pairs (number, integer) that are only read at
+    position 0, shortened by `del l[0]` and extended by bisect.insort (the transfer lists of the 'gain' association).
+
+    ABSTRACTION (an over-approximation of the concrete states, sound for safety properties): for every key the SET of the second components
+    of its list - member[a][b][p] - and the set of keys present - haskey[a][b].  The order inside a list and the first components are not
+    modelled: the head of a non-empty list is SOME member (the same one until the dictionary is next mutated), its first component is an
+    unconstrained number; `del l[0]` may or may not remove the head from the set (a list could hold the same pair twice)."""
+
+    def __init__(self, name):
+        self.name = name
+        self.member = z3.K(_I, z3.K(_I, z3.K(_I, z3.BoolVal(False))))
+        self.haskey = z3.K(_I, z3.K(_I, z3.BoolVal(False)))
+        self.version = z3.IntVal(0)
+        self.bumps = 0
+
+    def bump(self):
+        from .values import fresh_name
+        self.version = z3.Int(fresh_name(self.name + "_version"))
+
+    def mem(self, a, b, p):
+        return self.member[z(a)][z(b)][z(p)]
+
+    def key(self, a, b):
+        return self.haskey[z(a)][z(b)]
+
+    def _pair(self, k):
+        from .values import is_int_like
+        if not (isinstance(k, tuple) and len(k) == 2 and all(is_int_like(x) for x in k)):
+            raise Unsupported("key %r of a symbolic dictionary of lists (pairs of integers only)" % (k,))
+        return z(k[0]), z(k[1])
+
+    def has(self, E, k):
+        a, b = self._pair(k)
+        return self.key(a, b)
+
+    def getitem(self, E, k, node):
+        a, b = self._pair(k)
+        E.safety("key-present", self.key(a, b), node, "KeyError")
+        return ListView(self, a, b)
+
+    def setitem(self, E, k, v, node):
+        a, b = self._pair(k)
+        if not (isinstance(v, list) and not v):
+            raise Unsupported("only an empty list can be stored in a symbolic dictionary of lists, not %r" % (v,))
+        row = self.member[a]
+        self.member = z3.Store(self.member, a, z3.Store(row, b, z3.K(_I, z3.BoolVal(False))))
+        self.haskey = z3.Store(self.haskey, a, z3.Store(self.haskey[a], b, z3.BoolVal(True)))
+        self.bump()
+        E.assume(ld_len(self.version, a, b) == 0)
+
+    def method(self, E, name, args, kwargs, node):
+        if name == "get" and len(args) == 2 and isinstance(args[1], list) and not args[1]:
+            a, b = self._pair(args[0])
+            if E.branch(self.key(a, b)):
+                return ListView(self, a, b)
+            return ListView(self, a, b, detached=True)      # the (empty) default: not stored in the dictionary
+        raise Unsupported("method %s%r of a symbolic dictionary of lists" % (name, tuple(args)))
+
+    def iterspec(self, E):
+        raise Unsupported("iteration over a symbolic dictionary of lists")
+
+    def size(self):
+        raise Unsupported("len of a symbolic dictionary of lists")
+
+    def snapshot(self):
+        s = SymListDict(self.name)
+        s.member, s.haskey, s.version = self.member, self.haskey, self.version
+        return s
+
+    def restore(self, s):
+        self.member, self.haskey, self.version = s.member, s.haskey, s.version
+
+    def havoc(self, E):
+        from .values import fresh_name
+        self.member = z3.Const(fresh_name(self.name + "_members"), _A3)
+        self.haskey = z3.Const(fresh_name(self.name + "_keys"), _H2)
+        self.bump()
+
+
+class ListView(_SymDictBase):
+    """the list stored under one key of a SymListDict (an alias: it reads and writes the dictionary's current state)"""
+
+    def __init__(self, d, a, b, detached=False):
+        self.d, self.a, self.b, self.detached = d, a, b, detached      # detached: the empty default list of d.get(key, []) for an absent key
+
+    def _facts(self, E):
+        if self.detached:
+            return z3.IntVal(0), z3.IntVal(0)
+        """what every concrete list satisfies: a non-empty list has its head among its members, an empty list has no member"""
+        d, a, b = self.d, self.a, self.b
+        n, h = ld_len(d.version, a, b), ld_head(d.version, a, b)
+        from .values import fresh_name
+        p = z3.Int(fresh_name("lp"))
+        E.assume(z3.And(n >= 0, z3.Implies(n > 0, d.mem(a, b, h)), z3.Implies(n == 0, z3.ForAll([p], z3.Not(d.mem(a, b, p))))))
+        return n, h
+
+    def size(self, E=None):
+        if self.detached:
+            return z3.IntVal(0)
+        if E is None:
+            return ld_len(self.d.version, self.a, self.b)
+        return self._facts(E)[0]
+
+    def has(self, E, k):
+        raise Unsupported("membership in a list of a symbolic dictionary of lists")
+
+    def getitem(self, E, k, node):
+        if not (isinstance(k, int) and not isinstance(k, bool) and k == 0):
+            raise Unsupported("only position 0 of a list of a symbolic dictionary of lists is modelled, not %r" % (k,))
+        n, h = self._facts(E)
+        E.safety("list-not-empty", n > 0, node, "IndexError")
+        return (ld_first(self.d.version, self.a, self.b), h)
+
+    def setitem(self, E, k, v, node):
+        raise Unsupported("store into a list of a symbolic dictionary of lists")
+
+    def delitem(self, E, k, node):
+        if not (isinstance(k, int) and not isinstance(k, bool) and k == 0):
+            raise Unsupported("only `del l[0]` is modelled for a list of a symbolic dictionary of lists")
+        n, h = self._facts(E)
+        E.safety("list-not-empty", n > 0, node, "IndexError")
+        d, a, b = self.d, self.a, self.b
+        keep = E.bool("head_also_further_down")       # a list may hold the same pair twice: the head may stay a member
+        d.member = z3.Store(d.member, a, z3.Store(d.member[a], b, z3.Store(d.member[a][b], h, keep)))
+        d.bump()
+
+    def insort(self, E, item, node):
+        from .values import is_int_like
+        if not (isinstance(item, tuple) and len(item) == 2 and is_int_like(item[1])):
+            raise Unsupported("bisect.insort of %r into a list of a symbolic dictionary of lists" % (item,))
+        if self.detached:
+            raise Unsupported("bisect.insort into the default list of dict.get")
+        d, a, b = self.d, self.a, self.b
+        d.member = z3.Store(d.member, a, z3.Store(d.member[a], b, z3.Store(d.member[a][b], z(item[1]), z3.BoolVal(True))))
+        d.bump()
+        E.assume(ld_len(d.version, a, b) > 0)
+
+    def method(self, E, name, args, kwargs, node):
+        raise Unsupported("method %s of a list of a symbolic dictionary of lists" % name)
+
+    def iterspec(self, E):
+        raise Unsupported("iteration over a list of a symbolic dictionary of lists")
+
+    def snapshot(self):
+        return ListView(self.d.snapshot(), self.a, self.b, self.detached)
